@@ -257,7 +257,15 @@ func genApp(t *rapid.T, m *genModel) Ev {
 		delete(m.ann[r], p)
 		return Ev{K: "wd", A: r, P: p, Gap: gap}
 	}
-	// announce: prefer a prefix some other router announces already (multi-homing)
+	if rapid.IntRange(0, 7).Draw(t, "burst") == 0 {
+		// a run of operations around the snapshot threshold (100): what a late joiner or a
+		// cut-off peer finds when it (re-)joins
+		cnt := rapid.SampledFrom([]int{5, 40, 99, 100, 101, 102, 130, 230}).Draw(t, "burstCnt")
+		for j := 0; j < cnt; j++ {
+			m.ann[r][j%3] = !m.ann[r][j%3]
+		}
+		return Ev{K: "burst", A: r, Cnt: cnt, Gap: gap}
+	}
 	p := rapid.IntRange(0, len(prefixPool)-1).Draw(t, "prefix")
 	m.ann[r][p] = true
 	return Ev{K: "ann", A: r, P: p, Gap: gap}
